@@ -15,7 +15,7 @@ from ..observe import is_malformed_date_error
 ID = "C16"
 RULE = ("(a) the catalogue product crop (37) x soil (15) x strategy (6) = 3330 cells with default options and a climate suited to the "
         "crop: a 1-in-6 stride rotating with VERIF_SEED in quick (555 cells), all cells in thorough; (b) option switches: every "
-        "documented value of ETadj, PlantMethod, CropType, GDDmethod, Determinant, PolHeatStress, PolColdStress, TrColdStress, "
+        "documented value of ETadj, PlantMethod, CropType, GDDmethod, SwitchGDD (mean / median), Determinant, PolHeatStress, PolColdStress, TrColdStress, "
         "adj_cn, calc_cn, adj_rew, bunds at heights 0 / 0.001 / 0.05 / 0.3 m, mulches, inhibited runoff, water-table method, CO2 "
         "option, initial-water-content type, one at a time on 4 base crops (pairwise in thorough); (c) dates: start / end on 29 Feb, "
         "ends on / one day around a planting date and at year boundaries, starts after planting, partial seasons; (d) Hypothesis: "
@@ -68,7 +68,7 @@ def catalogue():
 
 BASE_CROPS = ["Maize", "WheatGDD", "Potato", "Tomato"]
 SWITCHES = [("ETadj", [0, 1]), ("PlantMethod", [0, 1]), ("CropType", [1, 2, 3]), ("GDDmethod", [1, 2, 3]), ("Determinant", [0, 1]),
-            ("PolHeatStress", [0, 1]), ("PolColdStress", [0, 1]), ("TrColdStress", [0, 1])]
+            ("PolHeatStress", [0, 1]), ("PolColdStress", [0, 1]), ("TrColdStress", [0, 1]), ("SwitchGDD", [0, 1])]
 
 
 def switch_cases(pairwise):
@@ -123,6 +123,14 @@ def switch_cases(pairwise):
             c = cell(crop, "Loam", 4)
             c["iwc"] = iwc
             out.append(("iwc-%s-%s-%s" % (crop, iwc["wc_type"], iwc["method"]), c))
+    # SwitchGDD (calendar crop converted to thermal time over the whole period): complete and partial last seasons
+    for crop in ("Maize", "Potato", "Tomato", "Barley", "SugarCane", "Cassava"):
+        for typ in ("mean", "median"):
+            for end in ("2001/06/20", "2001/12/30", "2002/07/15", "2003/04/28"):
+                c = cell(crop, "Loam", 1, end=end)
+                c["weather"] = weather_for(crop, "2001-04-25", 800)
+                c["crop"]["overrides"] = {"SwitchGDD": 1, "SwitchGDDType": typ}
+                out.append(("switchgdd-%s-%s-%s" % (crop, typ, end), c))
     return out
 
 
